@@ -329,7 +329,7 @@ struct One {
         }
         #if VF_PROBE == 4
         else {
-            MS const m(e, etl::array<Idx, 0>{});
+            MS const m{}; // rank 0: the default mapping is the only one (explicit empty strides are probe 1)
             crumb(c, sn, "required_span_size()");
             vf::eq_int("required_span_size", (LL)m.required_span_size(), 1);
             vf::cover("required_span_size()", c.h, false);
